@@ -411,7 +411,7 @@ theorem settled_noncandidate (L : Lists) (c : Cfg) (n : Str) (hm : n ∉ settled
   · simp [hasAttrRepl, e3, e4]
   · intro v
     apply classFree_valueOk
-    simp [classFree, e5, schemeList, schemeCtx, attrSchemes, e6, e7, e8]
+    simp [classFree, e5, schemeList_eq_model, schemeCtx, attrSchemes, e6, e7, e8]
 
 /-- `SettledW`, checked on the finitely many element and attribute names that any table mentions. -/
 def settledWB (L : Lists) (c : Cfg) : Bool :=
